@@ -347,6 +347,11 @@ def _same_obj(a, b):
 
 
 def _eq(ex, st, a: V, b: V):
+    hook = getattr(ex, "eq_hook", None)      # pack-local executors may compare their own value kinds (symbolic lists)
+    if hook is not None:
+        r = hook(st, a, b)
+        if r is not None:
+            return r
     if isinstance(a, VRef) or isinstance(b, VRef):
         ia, ib = ex.concrete_items(st, a), ex.concrete_items(st, b)
         if ia is None or ib is None or len(ia) != len(ib):
